@@ -252,7 +252,7 @@ def ice3870_class(items):
 def classify_scope(case):
     errs = (case.get("impl") or {}).get("err") or []
     if len(errs) == 1 and "internal compiler error" in errs[0].get("reason", "") and "/3870" in errs[0].get("reason", "") and case.get("ice_class"):
-        return "F55-group-at-head-of-group-body-internal-error"
+        return "F55-group-of-groups-only-internal-error"
     return None
 
 
